@@ -271,6 +271,8 @@ fn sample_and_expire_batch(store: &Arc<FeoxStore>, config: &TtlConfig) -> (u64, 
                         && current_expiry > 0
                         && current_expiry < now
                     {
+                        #[cfg(feoxdb_verif)]
+                        crate::verif::emit("pub", &key, now, 0, 4);
                         record.retired_at.store(now, Ordering::Release);
                         record.refcount.store(0, Ordering::Release);
                         store.remove_from_tree(&key);
